@@ -388,3 +388,59 @@ def rule_factor_orientation(ctx):
                     where=where, operand=f"{s2 if r1 else s1}"))
     r.floor(n, 6, "reduced-factor constructions from BP messages")
     return r
+
+
+def rule_damping_order(ctx):
+    r = RuleResult(
+        "damping-order",
+        "sibling agreement on the argument order of the damping function (defined once as _damping_fn(old, new) = "
+        "damping*old + (1 - damping)*new): at every call site the first argument is the stored message (read from "
+        "self.messages / the message being replaced) and the second the freshly computed one; a swapped call inverts the "
+        "damping strength (damping=0.1 behaves like 0.9)",
+    )
+    common, classes = _bp_classes(ctx)
+    n = 0
+    for c in classes:
+        for name, f in c.methods.items():
+            if f.cls is not c or f.is_alias or isinstance(f.node, ast.Lambda):
+                continue
+            for fn in [f.node] + [x for x in ast.walk(f.node) if isinstance(x, ast.FunctionDef) and x is not f.node]:
+                if fn is f.node and any(isinstance(x, ast.FunctionDef) and x is not f.node for x in ast.walk(f.node)):
+                    own_calls = {id(c_) for c_ in _own_walk(fn)}
+                else:
+                    own_calls = None
+                for call in ast.walk(fn):
+                    if not (isinstance(call, ast.Call) and isinstance(call.func, ast.Attribute) and call.func.attr == "_damping_fn" and len(call.args) == 2):
+                        continue
+                    if own_calls is not None and id(call) not in own_calls:
+                        continue  # belongs to a nested function: analysed in its own scope
+                    defs = {}
+                    for a in ast.walk(fn):
+                        if isinstance(a, ast.Assign) and len(a.targets) == 1 and isinstance(a.targets[0], ast.Name) and a.lineno < call.lineno:
+                            defs.setdefault(a.targets[0].id, []).append(a.value)
+
+                    def stored(e, depth=0):
+                        if depth > 3:
+                            return False
+                        if any(isinstance(x, ast.Attribute) and x.attr == "messages" for x in ast.walk(e)):
+                            return True
+                        for x in ast.walk(e):
+                            if isinstance(x, ast.Name) and x.id in defs and any(stored(d, depth + 1) for d in defs[x.id]):
+                                return True
+                        return False
+
+                    a0, a1 = call.args
+                    s0, s1 = stored(a0), stored(a1)
+                    key = (c.name, name, call.lineno)
+                    n += 1
+                    construct = f"{c.name}.{name}"
+                    if s0 and not s1:
+                        r.ok(f"{construct}@{call.lineno}", sample={"class": c.name, "call": src_of(call)[:50], "old": src_of(a0)[:20], "new": src_of(a1)[:20]})
+                    elif s1 and not s0:
+                        r.bad(Finding("damping-order", construct, f"`{src_of(call)[:60]}` passes the new message first and the stored one second: the damping weight is applied to the new "
+                                      "message instead of the old one", where=f"{f.module.relpath}:{call.lineno}", operand="swapped"))
+                    else:
+                        r.skip(f"{construct}@{call.lineno}", "cannot tell which argument is the stored message")
+    # nested function walk visits inner calls twice (outer + inner scope): obligations are deduplicated by the framework keys
+    r.floor(n, 4, "damping calls")
+    return r
